@@ -67,6 +67,12 @@ def eval_call(self, st, node):
                     # a module-level alias the index cannot resolve (NAME = module.attr): the harness stub by that name
                     res.extend(self.stubs[node.func.id](self, s3, list(args), kwargs, node))
                     continue
+                if isinstance(fn, Top) and not fn.input and fn.domain is None and isinstance(node.func, ast.Attribute) \
+                        and node.func.attr in MUTATORS and args and not getattr(self, "allow_guess", False) \
+                        and getattr(self, "strict_unknown_mutation", True):
+                    # x.append(...) on a value the interpreter could not determine: the effect would be lost silently
+                    raise _U()("%s() on a value the interpreter does not know (%s) at %s: its effect cannot be followed"
+                               % (node.func.attr, fn.tag, self.loc(node)))
                 res.extend(apply(self, s3, fn, list(args), kwargs, node))
     return res
 
@@ -246,6 +252,18 @@ def call_external(self, st, name, args, kwargs, node):
     if stub is not None:
         return stub(self, st, args, kwargs, node)
     last = name.split(".")[-1]
+    if name in ("six.iteritems", "six.iterkeys", "six.itervalues", "six.viewitems", "six.viewkeys", "six.viewvalues") and len(args) == 1 \
+            and not kwargs and not isinstance(args[0], Top):
+        # six.iteritems(d) is d.items() (iterated once by every caller in this code base)
+        meth = last[4:]
+        outs = self.get_attr(st, args[0], meth, node)
+        res = []
+        for (s1, k1, v1) in outs:
+            if k1 != "val":
+                res.append((s1, k1, v1))
+            else:
+                res.extend(apply(self, s1, v1, [], {}, node))
+        return res
     if name in ("six.moves.zip", "six.moves.range", "six.moves.map", "six.moves.filter", "builtins.zip", "builtins.range"):
         return call_builtin(self, st, last, args, kwargs, node)
     if name in ("six.unichr", "builtins.chr", "six.moves.builtins.chr") and len(args) == 1 and isinstance(args[0], int) and not isinstance(args[0], bool) \
